@@ -146,7 +146,23 @@ def determinism_selftest(ctx, seed, n_plans, jobs, tier):
     return report
 
 
-def _real_run(args, env_extra=None, stdout=None, drop_env=()):
+_SHADOW = {}
+
+
+def shadow_root(scratch_dir):
+    """The real-process validation runs must not be able to leave anything in the repository (a
+    tool under test may write cache files into its working directory): they run in a scratch
+    directory that only holds symlinks to the repository's au/ and tools/."""
+    if scratch_dir not in _SHADOW:
+        d = os.path.join(scratch_dir, "shadow-root")
+        os.makedirs(d, exist_ok=True)
+        for name in ("au", "tools"):
+            os.symlink(os.path.join(_tree.REPO, name), os.path.join(d, name))
+        _SHADOW[scratch_dir] = d
+    return _SHADOW[scratch_dir]
+
+
+def _real_run(args, env_extra=None, stdout=None, drop_env=(), cwd=None):
     e = dict(os.environ)
     for k in ("PYTHONUNBUFFERED",) + tuple(drop_env):
         e.pop(k, None)
@@ -154,7 +170,8 @@ def _real_run(args, env_extra=None, stdout=None, drop_env=()):
     e["PYTHONDONTWRITEBYTECODE"] = "1"
     e.update(env_extra or {})
     try:
-        p = subprocess.run([sys.executable, _tree.tool_path()] + args, cwd=_tree.REPO, env=e, stdout=stdout, stderr=subprocess.PIPE, timeout=REAL_RUN_TIMEOUT_S)
+        root = cwd or _tree.REPO
+        p = subprocess.run([sys.executable, os.path.join(root, _tree.TOOL_REL)] + args, cwd=root, env=e, stdout=stdout, stderr=subprocess.PIPE, timeout=REAL_RUN_TIMEOUT_S)
     except subprocess.TimeoutExpired:
         # The real tool did not finish.  That is not a verdict (no wall clock takes part in
         # one): the simulated runs will say GEN_HANG by step budget if it really loops.
@@ -171,6 +188,12 @@ def exit_model_validation(ctx):
     """The simulator models process exit (uncaught exception -> 1, failing final flush -> 120,
     SystemExit(n) -> n).  Compare that model with the real interpreter under real, deterministic
     faults.  Disagreement on zero/non-zero => the simulator's verdicts cannot be trusted."""
+    root = shadow_root(ctx.pool.scratch)
+    _rr = _real_run
+
+    def _real_run_shadow(args, **kw):
+        return _rr(args, cwd=root, **kw)
+
     cases = []
     base_sel = {"units": ["meters", "seconds"] if "meters" in ctx.tree.units else ctx.tree.units[:2], "constants": [], "io": True, "version_id": "X", "main_files": [], "opt_order": ["units", "constants", "noio", "version"]}
     args = _env.argv_of(base_sel)
@@ -188,7 +211,7 @@ def exit_model_validation(ctx):
         return re.sub(rb"^// Copyright \d+", b"// Copyright YEAR", b, count=1)
 
     # 1. fault-free, to a pipe
-    r = _real_run(args, stdout=subprocess.PIPE)
+    r = _real_run_shadow(args, stdout=subprocess.PIPE)
     s, d = simulate({}, [])
     cases.append({"case": "fault-free to a pipe", "real": r.returncode, "sim": s["status"], "bytes_equal": strip_year(r.stdout) == strip_year(d)})
     if r.returncode == "timeout":
@@ -197,44 +220,44 @@ def exit_model_validation(ctx):
         return {"cases": cases, "n": 0, "not_comparable": 1, "agreed": 0, "agreed_exact_status": 0}
     # 2. /dev/full, block buffered
     with open("/dev/full", "wb") as full:
-        r = _real_run(args, stdout=full)
+        r = _real_run_shadow(args, stdout=full)
     s, d = simulate({}, [{"op": "write", "where": "first", "permille": 0, "kind": "ENOSPC", "persistent": True}])
     cases.append({"case": "stdout=/dev/full (block buffered)", "real": r.returncode, "sim": s["status"]})
     # 3. /dev/full, unbuffered
     with open("/dev/full", "wb") as full:
-        r = _real_run(args, stdout=full, env_extra={"PYTHONUNBUFFERED": "1"})
+        r = _real_run_shadow(args, stdout=full, env_extra={"PYTHONUNBUFFERED": "1"})
     s, d = simulate({"stdout_mode": "unbuffered"}, [{"op": "write", "where": "first", "permille": 0, "kind": "ENOSPC", "persistent": True}])
     cases.append({"case": "stdout=/dev/full (unbuffered)", "real": r.returncode, "sim": s["status"]})
     # 4. reader already gone: EPIPE
     rd, wr = os.pipe()
     os.close(rd)
     try:
-        r = _real_run(args, stdout=wr)
+        r = _real_run_shadow(args, stdout=wr)
     finally:
         os.close(wr)
     s, d = simulate({}, [{"op": "write", "where": "first", "permille": 0, "kind": "EPIPE", "persistent": True}])
     cases.append({"case": "stdout=pipe without reader", "real": r.returncode, "sim": s["status"]})
     # 5. no git on PATH (even though --version-id is given: the default is evaluated eagerly)
-    r = _real_run(args, stdout=subprocess.PIPE, env_extra={"PATH": "/nonexistent-dir"})
+    r = _real_run_shadow(args, stdout=subprocess.PIPE, env_extra={"PATH": "/nonexistent-dir"})
     s, d = simulate({"git": "enoent"}, [])
     cases.append({"case": "git not installed", "real": r.returncode, "sim": s["status"]})
     # 6. git present but fails (not a repository)
     if shutil.which("git"):
-        r = _real_run(args, stdout=subprocess.PIPE, env_extra={"GIT_DIR": "/nonexistent-dir/.git", "GIT_CEILING_DIRECTORIES": "/"})
+        r = _real_run_shadow(args, stdout=subprocess.PIPE, env_extra={"GIT_DIR": "/nonexistent-dir/.git", "GIT_CEILING_DIRECTORIES": "/"})
         s, d = simulate({"git": "exit128"}, [])
         cases.append({"case": "git exits 128", "real": r.returncode, "sim": s["status"], "bytes_equal": strip_year(r.stdout) == strip_year(d)})
         sel2 = dict(base_sel, version_id=None)
-        r = _real_run(_env.argv_of(sel2), stdout=subprocess.PIPE, env_extra={"GIT_DIR": "/nonexistent-dir/.git", "GIT_CEILING_DIRECTORIES": "/"})
+        r = _real_run_shadow(_env.argv_of(sel2), stdout=subprocess.PIPE, env_extra={"GIT_DIR": "/nonexistent-dir/.git", "GIT_CEILING_DIRECTORIES": "/"})
         s, d = simulate({"git": "exit128"}, [], sel=sel2)
         cases.append({"case": "git exits 128, version from git", "real": r.returncode, "sim": s["status"], "bytes_equal": strip_year(r.stdout) == strip_year(d)})
     # 7. an unreadable input: a unit name whose header does not exist (ENOENT at open)
     sel3 = dict(base_sel, units=["no_such_unit_zzz"])
-    r = _real_run(_env.argv_of(sel3), stdout=subprocess.PIPE)
+    r = _real_run_shadow(_env.argv_of(sel3), stdout=subprocess.PIPE)
     s, d = simulate({}, [], sel=sel3)
     cases.append({"case": "open() -> ENOENT", "real": r.returncode, "sim": s["status"]})
     # 8. bad usage: argparse exits 2
     sel4 = dict(base_sel)
-    r = _real_run(["--no-such-option"], stdout=subprocess.PIPE)
+    r = _real_run_shadow(["--no-such-option"], stdout=subprocess.PIPE)
     plan4 = {"seed": 0, "run": "exitmodel", "hashseed": 0, "selection": dict(base_sel, argv=["--no-such-option"]), "env": {"listdir": {}, "extra_entries": {}, "clock": ["2026-01-01T00:00:00"], "git": "ok:x", "stdout_mode": "block"}, "faults": [], "toolchain": {"a": ["g++", "c++14"]}, "probe": {}}
     s, d = ctx.pool.run(plan4)
     cases.append({"case": "usage error", "real": r.returncode, "sim": s["status"]})
@@ -281,6 +304,9 @@ class Stats:
         self.unhandled_runs = 0
         self.loud_failures = 0
         self.sweep_variants = 0
+        self.sessions = 0
+        self.session_invocations = 0
+        self.session_outcomes = {}
 
     def bump(self, d, k, n=1):
         d[k] = d.get(k, 0) + n
@@ -457,6 +483,30 @@ def run_campaign(tier, seed, jobs, only_runs=None):
             with ThreadPoolExecutor(jobs) as ex:
                 records[ix].extend(ex.map(one, variants))
             say("  sweep %s: %d fault variants over %d input files, %d output bytes, %d steps (%.0f s)" % (plan["run"], len(variants), len(tres["opened"]), tres["out_len"], tres["steps"], _perf() - t0))
+        # sessions: sequences of invocations on one simulated machine
+        splans = _plan.session_plans(tree, seed, tier)
+        if only_runs:
+            splans = [p for p in splans if str(p["run"]) in only_runs]
+
+        def do_session(sp):
+            srec = _check.evaluate_session(ctx, sp)
+            srec["_case"] = sp
+            with stats.lock:
+                stats.sessions += 1
+                stats.session_invocations += len(sp["session"])
+                for st in srec["steps"]:
+                    for k, v in (st.get("probes") or {}).items():
+                        stats.bump(stats.probes, k, v)
+                    if st.get("outcome"):
+                        stats.bump(stats.session_outcomes, st["outcome"])
+            if srec.get("harness_error"):
+                harness_errors.append(srec["harness_error"])
+            return [srec]
+
+        with ThreadPoolExecutor(jobs) as ex:
+            records.extend(ex.map(do_session, splans))
+        if splans:
+            say("  sessions: %d sessions, %d invocations (%.0f s)" % (stats.sessions, stats.session_invocations, _perf() - t0))
         stats.sim_runs = ctx.pool.runs
 
         if harness_errors:
@@ -549,7 +599,10 @@ def write_and_gate_replay(ctx, tree, g, mcase, original, final, info):
     # re-execute once more with the event log, in this process (gate 1)
     again = _check.evaluate_case(ctx, mcase, want_events=True)
     same = again["trace_hashes"] == final["trace_hashes"] and any(x["class"] == g["class"] and x["sig"] == g["sig"] for x in again["violations"])
-    events = (again.get("faulty") or again["twin"]).get("events")
+    if again.get("session"):
+        events = [st.get("events") for st in again["session"]["steps"]]
+    else:
+        events = (again.get("faulty") or again["twin"]).get("events")
     doc = {
         "property": PROPERTY,
         "class": g["class"],
@@ -598,7 +651,8 @@ def replay(path, as_json=False, jobs=4):
         doc = json.load(f)
     scratch = Scratch()
     case = doc["case"]
-    ctx = make_context(jobs, scratch, hashseeds=(case.get("hashseed", 0),))
+    seeds = {case.get("hashseed", 0)} | {inv.get("hashseed", 0) for inv in case.get("session", [])}
+    ctx = make_context(jobs, scratch, hashseeds=tuple(sorted(seeds)))
     ctx.step_budget = int(doc.get("step_budget") or ctx.step_budget)
     ctx.event_cap = int(doc.get("event_cap") or ctx.event_cap)
     try:
@@ -650,6 +704,11 @@ def write_evidence(tier, seed, t0, ctx, stats, cov, det, exitm, reported, known_
             for fr in recs[1:4]:
                 s["faulty"].append({"faults": fr["sim"]["resolved_faults"], "git": fr["_case"]["env"]["git"], "status": fr["sim"]["status"], "delivered": len(fr["sim"]["delivered"]), "outcome": fr.get("outcome") or [v["class"] for v in fr["violations"]]})
             samples.append(s)
+    if records and plans:
+        for recs in records[len(plans):len(plans) + 2]:
+            sr = recs[0]
+            if sr.get("kind") == "session":
+                samples.append({"session": sr["run"], "invocations": [{"selection": inv["selection"], "touched": inv["env"].get("touched"), "status": st["status"], "outcome": st.get("outcome"), "overlay_files": st.get("overlay_files")} for inv, st in zip(sr["_case"]["session"], sr["steps"])], "violations": [v["class"] for v in sr["violations"]]})
     if not samples:
         samples = [{"note": "self-test failed before any plan was judged" if selftest_failed else "no plan was judged"}]
     c = cov.summary()
@@ -668,6 +727,7 @@ def write_evidence(tier, seed, t0, ctx, stats, cov, det, exitm, reported, known_
             "fault_free_plans": stats.fault_free,
             "faulty_executions": stats.faulty,
             "systematic_sweep_fault_variants": stats.sweep_variants,
+            "sessions": {"sessions": stats.sessions, "invocations": stats.session_invocations, "outcomes": dict(sorted(stats.session_outcomes.items()))},
             "runs_per_hour": int(runs / wall * 3600) if wall > 0 else 0,
             "builds": ctx.builder.n_builds,
             "build_cache_hits": ctx.builder.n_cache_hits,
